@@ -3,7 +3,11 @@ use crate::common::{Ctx, Report};
 use serde_json::Value;
 
 pub mod c04;
+pub mod c05;
+pub mod c07;
 pub mod c09a;
+pub mod c15;
+pub mod c18;
 pub mod c20;
 pub mod stateful;
 use stateful::Target;
@@ -16,7 +20,11 @@ pub fn run(ctx: &Ctx) -> Option<Report> {
         "C17" => Some(stateful::run_target(ctx, Target::C17)),
         "C03" => Some(stateful::run_target(ctx, Target::C03)),
         "C04" => Some(c04::run(ctx)),
+        "C05" => Some(c05::run(ctx)),
+        "C07" => Some(c07::run(ctx)),
         "C09" => Some(c09a::run(ctx)),
+        "C15" => Some(c15::run(ctx)),
+        "C18" => Some(c18::run(ctx)),
         "C20" => Some(c20::run(ctx)),
         "C06" => Some(stateful::run_target(ctx, Target::C06)),
         _ => None,
@@ -31,7 +39,11 @@ pub fn replay(ctx: &Ctx, case: &Value) -> Option<Report> {
         "C17" => Some(stateful::replay_target(ctx, Target::C17, case)),
         "C03" => Some(stateful::replay_target(ctx, Target::C03, case)),
         "C04" => Some(c04::replay(ctx, case)),
+        "C05" => Some(c05::replay(ctx, case)),
+        "C07" => Some(c07::replay(ctx, case)),
         "C09" => Some(c09a::replay(ctx, case)),
+        "C15" => Some(c15::replay(ctx, case)),
+        "C18" => Some(c18::replay(ctx, case)),
         "C20" => Some(c20::replay(ctx, case)),
         "C06" => Some(stateful::replay_target(ctx, Target::C06, case)),
         _ => None,
